@@ -384,7 +384,8 @@ func cmdPrompt(args []string) int {
 	r := newRng(c.seed)
 	kinds := []string{"producer-error", "producer-crash", "producer-deploy-fail", "needs-crashed-of-succeeding-step",
 		"needs-closed-of-succeeding-step", "needs-deploy-failed-of-succeeding-step", "wait-optional-on-crashed-of-succeeding-step",
-		"waits-for-crashed-stage-of-succeeding-step", "output-expression-fails-at-run-time", "step-input-expression-fails-at-run-time"}
+		"waits-for-crashed-stage-of-succeeding-step", "output-expression-fails-at-run-time", "step-input-expression-fails-at-run-time",
+		"container-of-a-running-step-cannot-be-removed"}
 	for i := 0; i < c.n; i++ {
 		cr := r.fork()
 		if i < c.skip {
@@ -420,6 +421,15 @@ func cmdPrompt(args []string) int {
 			out.put("v", expr("$.steps.a.closed.result"))
 		case "needs-deploy-failed-of-succeeding-step":
 			out.put("v", expr("$.steps.a.deploy_failed.error"))
+		case "container-of-a-running-step-cannot-be-removed":
+			// the output is produced while step h (and a second never-ending step) is still running; when the run closes
+			// them, the deployer reports an error for h's container (stopped, but not removed).  The run has its output:
+			// that is what has to be returned, and the other step still has to be closed.
+			wf.Steps = append(wf.Steps, AStep{ID: "g", Kind: "plugin", PlugStep: "op", Src: "g", Fields: map[string]AIn{
+				"input": amap("s", lit("w")), "closure_wait_timeout": lit("100")}})
+			beh["g"] = Behaviour{Outcome: "hang"}
+			beh["h"] = Behaviour{Outcome: "hang", CloseFail: true}
+			out.put("v", expr("$.steps.a.outputs.success.s"))
 		case "output-expression-fails-at-run-time":
 			// the only output evaluates an expression that fails on the value step a produced: the run has to end with that
 			// error at once, whatever the unrelated never-ending step does
@@ -450,7 +460,7 @@ func cmdPrompt(args []string) int {
 		// every shape but the wait-optional one leaves no producible output; in that one the output becomes producible (with
 		// the wait-optional member absent) as soon as step a has finished, because its crashed stage cannot happen any more
 		res["expect"] = "error"
-		if kind == "wait-optional-on-crashed-of-succeeding-step" {
+		if kind == "wait-optional-on-crashed-of-succeeding-step" || kind == "container-of-a-running-step-cannot-be-removed" {
 			res["expect"] = "output"
 		}
 		w.emit(res)
